@@ -139,6 +139,9 @@ class ProxyWorld:
         self.hooks: list = []  # (t, name, key, data)
         self.hook_listeners: list = []
         self.hook_done_listeners: list = []  # called when a hook (incl. interception) has completed
+        self.timeouts: list = []  # (t, handler, hooks pending for that handler) at every idle-watchdog firing
+        self.pending_by_handler: dict = {}
+        self._seq = 0
         self.policy = None  # callable(name, data) -> awaitable | None
         self.pending_hooks = 0
         self.hook_spans: list = []
@@ -151,6 +154,11 @@ class ProxyWorld:
         self.client_tasks: list = []
 
     # -- observation -----------------------------------------------------------
+    def next_seq(self) -> int:
+        """Global event sequence number: orders observations that share one virtual instant."""
+        self._seq += 1
+        return self._seq
+
     def on_hook(self, name, data):
         t = self.loop.time()
         self.hooks.append((t, name, data))
@@ -220,14 +228,17 @@ class ProxyWorld:
 
         async def handle_hook(self_, hook):
             world.pending_hooks += 1
+            world.pending_by_handler[id(self_)] = world.pending_by_handler.get(id(self_), 0) + 1
             t0 = world.loop.time()
-            span = [self_, hook.name, t0, None]
+            span = [self_, hook.name, t0, None, world.next_seq(), None]
             world.hook_spans.append(span)
             try:
                 return await orig_handle_hook(self_, hook)
             finally:
                 world.pending_hooks -= 1
+                world.pending_by_handler[id(self_)] -= 1
                 span[3] = world.loop.time()
+                span[5] = world.next_seq()
                 for l in world.hook_done_listeners:
                     l(hook.name, hook.args()[0])
 
@@ -240,6 +251,15 @@ class ProxyWorld:
         def init(self_, *a, **kw):
             orig_init(self_, *a, **kw)
             world.handlers.append(self_)
+
+        orig_on_timeout = pserver.ConnectionHandler.on_timeout
+
+        async def on_timeout(self_):
+            # the instant the idle watchdog decides to close the connection
+            world.timeouts.append((world.loop.time(), self_, world.pending_by_handler.get(id(self_), 0),
+                                   world.next_seq()))
+            return await orig_on_timeout(self_)
+        patch(pserver.ConnectionHandler, "on_timeout", on_timeout)
 
         patch(mode_servers.ProxyConnectionHandler, "handle_hook", handle_hook)
         patch(pserver.ConnectionHandler, "server_event", server_event)
